@@ -681,6 +681,9 @@ func (m optModel) predictions() *Failure {
 	return nil
 }
 
+// taken at package initialisation, after the library's own initialisation and before any option setter is called
+var freshBattery, freshIndep = battery(), indepBattery()
+
 func checkC18(c CaseC18, info *Info) *Failure {
 	resetOptions()
 	defer resetOptions()
@@ -689,6 +692,11 @@ func checkC18(c CaseC18, info *Info) *Failure {
 		return failf("harness-state-leak", "options not at their defaults at the start of the case: %s", d)
 	}
 	baseOnce.Do(func() { baseBattery = battery(); baseIndep = indepBattery() })
+	// freshBattery was taken while the package variables were initialised: before ANY setter had been called in this
+	// process. The base above comes after resetOptions() has called every setter with its default.
+	if baseBattery != freshBattery || baseIndep != freshIndep {
+		return failf("not-restored", "behaviour after calling every setter with its documented default differs from a process that never called one:\n%s%s\n--- never called:\n%s%s", baseBattery, baseIndep, freshBattery, freshIndep)
+	}
 	names := map[string]bool{}
 	toggles, escBoth, kpChanges := 0, map[string]bool{}, 0
 	for i, call := range c.Calls {
